@@ -161,6 +161,29 @@ fn all_patterns() -> Vec<(String, String)> {
     out
 }
 
+/// one evaluable line per built-in rule pattern of `lang`: every field filled with the first
+/// (default) element of its typed boundary set.  Used by C18 to see that registering and deleting
+/// user rules leaves every built-in rule in place.
+pub fn default_rule_lines(lang: &str) -> Vec<String> {
+    let mut out = Vec::new();
+    for (l, pat) in all_patterns() {
+        if l != lang {
+            continue;
+        }
+        let mut s = String::new();
+        for part in parse_pattern(&pat) {
+            match part {
+                Part::Lit(t) => s.push_str(&t),
+                Part::Field(ty, extra) => s.push_str(&boundary(&ty, &extra, lang)[0]),
+            }
+        }
+        if !out.contains(&s) {
+            out.push(s);
+        }
+    }
+    out
+}
+
 fn instantiate(ch: &mut Chooser, lang: &str, pat: &str) -> String {
     let mut s = String::new();
     for part in parse_pattern(pat) {
